@@ -948,3 +948,52 @@ def sp_legal_rows(ex, e, st):
 
 
 SPEC["legal_rows"] = sp_legal_rows
+
+
+def _seq0(ex, x, st):
+    s_ = _seq(ex.ev(x, st))
+    if s_.delta != 0:
+        from pyvc.engine import Unsupported
+        raise Unsupported("breadth-first step over a shifted view")
+    return s_
+
+
+def sp_fmn(ex, e, st):
+    """fmn(acc, b, i): number of live successors of the first i entries of the list b."""
+    acc, b = _mat(ex.ev(e.args[0], st)), _seq0(ex, e.args[1], st)
+    return specz3.fmn(acc.arr2, b.arr, b.start, _int(ex.ev(e.args[2], st)))
+
+
+def sp_fm(ex, e, st):
+    """fm(acc, b, i, p): the p-th element of the flat map of live successors (A<C<G<T order) over the first i entries of b."""
+    acc, b = _mat(ex.ev(e.args[0], st)), _seq0(ex, e.args[1], st)
+    return specz3.fma(acc.arr2, b.arr, b.start, _int(ex.ev(e.args[2], st)))[_int(ex.ev(e.args[3], st))]
+
+
+def sp_levn(ex, e, st):
+    """levn(acc, v, d): the number of d-step walks from v."""
+    acc = _mat(ex.ev(e.args[0], st))
+    return specz3.levn(acc.arr2, _int(ex.ev(e.args[1], st)), _int(ex.ev(e.args[2], st)))
+
+
+def sp_lev(ex, e, st):
+    """lev(acc, v, d, p): the end point of the p-th d-step walk from v (breadth-first order, successors in A<C<G<T order)."""
+    acc = _mat(ex.ev(e.args[0], st))
+    return specz3.leva(acc.arr2, _int(ex.ev(e.args[1], st)), _int(ex.ev(e.args[2], st)))[_int(ex.ev(e.args[3], st))]
+
+
+def sp_levarr(ex, e, st):
+    """levarr(acc, v, d): the array of end points itself (for lemma calls)."""
+    acc = _mat(ex.ev(e.args[0], st))
+    return specz3.leva(acc.arr2, _int(ex.ev(e.args[1], st)), _int(ex.ev(e.args[2], st)))
+
+
+def sp_rfmn(ex, e, st):
+    return specz3.fmn(ex.ev(e.args[0], st), ex.ev(e.args[1], st), _int(ex.ev(e.args[2], st)), _int(ex.ev(e.args[3], st)))
+
+
+def sp_rfm(ex, e, st):
+    return specz3.fma(ex.ev(e.args[0], st), ex.ev(e.args[1], st), _int(ex.ev(e.args[2], st)), _int(ex.ev(e.args[3], st)))[_int(ex.ev(e.args[4], st))]
+
+
+SPEC.update({"fmn": sp_fmn, "fm": sp_fm, "levn": sp_levn, "lev": sp_lev, "levarr": sp_levarr, "rfmn": sp_rfmn, "rfm": sp_rfm})
